@@ -53,7 +53,12 @@ struct FnEmit
     {
         if (auto* K = dyn_cast<Constant>(V)) return C.cexpr(K);
         auto il = inl.find(V);
-        if (il != inl.end()) return il->second;
+        if (il != inl.end())
+        {
+            if (!il->second.empty()) return il->second;
+            auto* I = cast<Instruction>(V);
+            return "(" + C.pureExpr(I->getOpcode(), I, valf()) + ")";
+        }
         auto it = names.find(V);
         if (it == names.end())
         {
@@ -142,6 +147,32 @@ struct FnEmit
             }
         }
     }
+    // single-use pure instructions are folded into their user's expression (same block): far fewer assigned
+    // symbols, hence far fewer phi nodes when symex joins the many paths of a resumable function
+    void computeExprInline()
+    {
+        if (!C.exprInline) return;
+        for (BasicBlock& BB : F)
+            for (Instruction& I : BB)
+            {
+                if (inl.count(&I) || I.getType()->isVoidTy() || !I.hasOneUse()) continue;
+                unsigned opc = I.getOpcode();
+                bool pure = I.isBinaryOp() || I.isCast() || isa<GetElementPtrInst>(I) || isa<ICmpInst>(I) || isa<SelectInst>(I);
+                if (!pure) continue;
+                if (opc == Instruction::UDiv || opc == Instruction::SDiv || opc == Instruction::URem || opc == Instruction::SRem) continue;
+                if (I.getType()->isVectorTy() || I.getType()->isFloatingPointTy()) continue;
+                if (isa<IntToPtrInst>(I) && !pshadow(I.getOperand(0)).empty()) continue;    // handled with its pointer twin
+                auto* U = dyn_cast<Instruction>(*I.user_begin());
+                if (!U || U->getParent() != &BB || isa<PHINode>(U)) continue;
+                if (isa<LandingPadInst>(U) || isa<InvokeInst>(U)) continue;
+                if (isPtrLoad(&I)) continue;
+                // users that need a named operand
+                if (auto* ST = dyn_cast<StoreInst>(U))
+                    if (ST->getValueOperand() == &I && isa<PtrToIntInst>(I)) continue;    // pointer-typed store twin reads the operand itself
+                if (isa<AtomicCmpXchgInst>(U) || isa<AtomicRMWInst>(U)) continue;
+                inl[&I] = "";    // sentinel: the expression text is produced at each use (after the frame/local split is known)
+            }
+    }
     void computeFrameVals()
     {
         if (!res) return;
@@ -149,6 +180,17 @@ struct FnEmit
         // backward liveness over basic blocks
         std::map<BasicBlock*, std::set<Value*>> liveOut, liveIn;
         auto tracked = [&](Value* V) { return (isa<Instruction>(V) || isa<Argument>(V)) && !inl.count(V) && !V->getType()->isVoidTy(); };
+        // values read when V is used: V itself, or (if V is re-materialised at its use) the leaves of its expression
+        std::function<void(Value*, std::set<Value*>&)> leaves = [&](Value* V, std::set<Value*>& out) {
+            if (tracked(V))
+            {
+                out.insert(V);
+                return;
+            }
+            if (auto* I = dyn_cast<Instruction>(V))
+                if (inl.count(I))
+                    for (Value* Op : I->operands()) leaves(Op, out);
+        };
         // uses through inlined values refer to nothing live (allocas are frame storage)
         bool ch = true;
         while (ch)
@@ -164,7 +206,7 @@ struct FnEmit
                     for (PHINode& P : S->phis())
                     {
                         Value* V = P.getIncomingValueForBlock(BB);
-                        if (tracked(V)) live.insert(V);
+                        leaves(V, live);
                     }
                 }
                 liveOut[BB] = live;
@@ -172,9 +214,8 @@ struct FnEmit
                 {
                     Instruction& I = *ii;
                     live.erase(&I);
-                    if (isa<PHINode>(I)) continue;
-                    for (Value* Op : I.operands())
-                        if (tracked(Op)) live.insert(Op);
+                    if (isa<PHINode>(I) || inl.count(&I)) continue;
+                    for (Value* Op : I.operands()) leaves(Op, live);
                 }
                 // phis are defined at block entry: not live-in
                 for (PHINode& P : BB->phis()) live.erase(&P);
@@ -196,14 +237,12 @@ struct FnEmit
                     // everything live after the instruction (minus its own result) and its operands
                     for (Value* V : live)
                         if (V != &I) frameVals.insert(V);
-                    for (Value* Op : I.operands())
-                        if (tracked(Op)) frameVals.insert(Op);
+                    for (Value* Op : I.operands()) leaves(Op, frameVals);
                     // results of yielding calls are written after resumption: keep them local unless live across a later yield
                 }
                 live.erase(&I);
-                if (isa<PHINode>(I)) continue;
-                for (Value* Op : I.operands())
-                    if (tracked(Op)) live.insert(Op);
+                if (isa<PHINode>(I) || inl.count(&I)) continue;
+                for (Value* Op : I.operands()) leaves(Op, live);
             }
         }
     }
@@ -211,12 +250,12 @@ struct FnEmit
     std::string retStmt(const std::string& v)
     {
         if (!res) return v.empty() ? "return;" : "return " + v + ";";
-        return (v.empty() ? std::string() : "fr->ret = " + v + "; ") + (C.chain ? "fr->pc = 0; goto END;" : "fr->pc = 0; return 0;");
+        return (v.empty() ? std::string() : "fr->ret = " + v + "; ") + (C.chain ? "fr->pc = 0; goto END;" : "fr->pc = 0; fr->active = 0; return 0;");
     }
     std::string excPropagate()
     {
         if (!res) return retStmt(C.zeroOf(F.getReturnType()));
-        return C.chain ? "{ fr->pc = 0; goto END; }" : "{ fr->pc = 0; return 0; }";
+        return C.chain ? "{ fr->pc = 0; goto END; }" : "{ fr->pc = 0; fr->active = 0; return 0; }";
     }
     // ---- res mode layout: a chain of segments (block starts and yield points).  In seek mode (resuming:
     // verif_mode 1) and in yielded mode (verif_mode 2) control falls through the chain without executing
@@ -594,7 +633,7 @@ struct FnEmit
                     return;
                 }
             }
-        if (Callee && Callee->isDeclaration())
+        if (Callee && C.isExt(Callee))
         {
             C.usedExternals.insert(Callee);
             os << "  " << lhs;
@@ -924,6 +963,7 @@ struct FnEmit
             names[&I] = "v" + std::to_string(n++);
         }
         computeInline();
+        computeExprInline();
         computeFrameVals();
         for (Instruction& I : instructions(F))
         {
@@ -991,7 +1031,7 @@ struct FnEmit
         else
         {
             for (auto& d : sdecls) protoOut << "static " << d.first << " " << d.second << ";\n";
-            protoOut << "struct FR_" << fname << " { int pc;";
+            protoOut << "struct FR_" << fname << " { int pc; int active;";
             if (!RT->isVoidTy()) protoOut << " " << C.ty(RT) << " ret;";
             for (Argument& A : F.args()) protoOut << " " << C.ty(A.getType()) << " a" << A.getArgNo() << ";";
             for (auto& d : decls) protoOut << " " << d.first << " " << d.second << ";";
@@ -1013,6 +1053,7 @@ struct FnEmit
             for (auto& d : ldecls) bodyOut << "  " << d.first << " " << d.second << ";\n";
             if (!C.chain)
             {
+                bodyOut << "  if (fr->pc == 0) { VERIF_ENC_ASSERT(!fr->active, \"re-entrant activation of a resumable function (recursion is not supported by the encoding)\"); fr->active = 1; }\n";
                 bodyOut << "  switch (fr->pc) { case 0: break;";
                 for (int k = 1; k < nextY; ++k) bodyOut << " case " << k << ": goto Y" << k << ";";
                 bodyOut << " default: VERIF_ASSUME(0); }\n" << body << "}\n\n";
